@@ -21,6 +21,43 @@ OPTS = {'plain': ('text', []), 'batch': ('batch', []), 'verbose': ('verbose', []
         'lfail': ('text', ['-l', 'fail']), 'json': ('json', [])}
 
 
+def targets_leg(ck, tier):
+    """A target list (-T): the status of the run is 3 if any target's report contains a failure, 2 if none does but one contains a
+    warning, 0 only if none contains either - in whatever order the targets are listed and finish."""
+    import itertools
+    from checks import multi, c08
+    H = c08.healthy()
+    rank = {'good': 0, 'warn': 2, 'fail': 3}
+    lists = [l for n in (2, 3) for l in itertools.product(sorted(H), repeat=n)]
+    scs, meta = [], []
+    for lst in lists:
+        tg = [('server', H[n]) for n in lst]
+        for threads in (1, 2):
+            orders = [tuple(range(len(lst)))] if threads == 1 else [None, tuple(reversed(range(len(lst))))][:(2 if len(lst) == 2 else 1)]
+            for order in orders:
+                if order is not None and threads > 1 and order not in multi.feasible_orders(len(lst), threads):
+                    continue
+                sc, labels = multi.scenario(tg, threads, order, json_out=False)
+                scs.append(sc)
+                meta.append((lst, threads, order))
+    for (lst, threads, order), sc, r in zip(meta, scs, runner.run_many(scs)):
+        ck.evaluated()
+        if r.get('harness_error') or r.get('hang'):
+            raise common.Machinery('target-list run failed: %r' % (r.get('harness_error') or 'hang'))
+        want = max(rank[n] for n in lst)
+        out = report.strip_ansi(r['stdout'])
+        shown = 3 if '[fail]' in out else (2 if '[warn]' in out else 0)
+        replay = {'targets': lst, 'threads': threads, 'finish_order': order, 'argv': sc['argv'], 'exit': r['exit'], 'stdout': r['stdout'][-1500:]}
+        if shown != want:
+            raise common.Machinery('archetype severities are not what the leg assumes: %r shows %r' % (lst, shown))
+        if r['exit'] != want:
+            ck.violation('target-list-status expected=%s got=%s' % (want, r['exit']),
+                         'targets %r (%d thread(s), finish order %r): exit status %s, the worst finding among the reports implies %s' % (lst, threads, order, r['exit'], want), replay)
+        else:
+            ck.cov['traces_validated_against_impl'] += 1
+            ck.nontrivial(('targets', lst, threads, order))
+
+
 def run(tier):
     ck = common.Check('C02', tier)
     rnd = random.Random(ck.seed)
@@ -82,6 +119,7 @@ def run(tier):
                          {'case': c, 'events': rating.trace_of(c, res)['events'], 'exit': res['exit']})
     if items:
         ck.sample({'trace': rating.trace_of(*items[len(items) // 2])})
+    targets_leg(ck, tier)
     for modname, fn in (('checks.c09', 'c02_leg'), ('checks.c06', 'c02_leg')):
         try:
             mod = __import__(modname, fromlist=['x'])
